@@ -3,6 +3,7 @@ import Driver.C15
 import Driver.C16
 import Driver.C08
 import Driver.C07
+import Driver.C11
 open Lean
 
 def dispatch (prop : String) (input : Json) : Except String Json :=
@@ -11,6 +12,7 @@ def dispatch (prop : String) (input : Json) : Except String Json :=
   | "C16" => Driver.C16.handle input
   | "C08" => Driver.C08.handle input
   | "C07" => Driver.C07.handle input
+  | "C11" => Driver.C11.handle input
   | p => .error s!"no model for {p}"
 
 def handleLine (line : String) : String :=
